@@ -107,6 +107,27 @@ let str_evs (evs : ev list) =
     | [Sig c] -> str_c c
     | l -> "multi" ^ string_of_int (List.length l)
 
+(* the ledger predicted by Model/SenderLedger.v for the harness-observable object classes:
+   leaf / scheduler operation states constructed, alive when the terminal receiver is called,
+   alive after the receiver destroyed the operation state (mode rd) *)
+let led_line (id : string) (mode : string) (t : term) : unit =
+  let rd = (mode = "rd") in
+  match ledger rd t with
+  | None -> Printf.printf "LED PIPE %s none\n" id
+  | Some tr ->
+    let cnt k l = List.fold_left (fun (c, lv) e -> match e with
+        | New (_, k') when k' = k -> (c + 1, lv + 1)
+        | Del (_, k') when k' = k -> (c, lv - 1)
+        | _ -> (c, lv)) (0, 0) l in
+    let (lc, _) = cnt KLeaf tr and (sc, _) = cnt KSched tr in
+    let pre = upto_term tr in
+    let (_, ls) = cnt KLeaf pre and (_, ss) = cnt KSched pre in
+    (* after the Term event of an rd trace come the destruction of the operation state, then the
+       unwinding; leaf / scheduler operation states are never touched by the unwinding *)
+    let (_, ld) = cnt KLeaf tr and (_, sd) = cnt KSched tr in
+    Printf.printf "LED PIPE %s lc=%d sc=%d ls=%d ss=%d ld=%d sd=%d nouse=%d\n" id lc sc ls ss
+      (if rd then ld else -1) (if rd then sd else -1) (if nouse_ok tr then 1 else 0)
+
 let () =
   try
     while true do
@@ -134,6 +155,7 @@ let () =
               | SdAbort -> "abort")
           | _ -> "?" in
         Printf.printf "OUT PIPE %s r=%s\n" id r;
+        if mode = "run" || mode = "rd" then led_line id mode t;
         Printf.printf "DEN PIPE %s %s\n" id (String.concat ";" (List.sort_uniq compare (List.map str_c (den t))))
       end
       else if String.length line > 6 && String.sub line 0 6 = "IN HO " then begin
